@@ -330,7 +330,9 @@ def run(chk):
     chk.trusted.append("translator/gen_limits.py (constants / limits of the source -> Gen/Limits.lean: compiled probe + "
                        "preprocessed function bodies at named anchors; tied to the model numerals by Props/Limits/C12.lean)")
     sb = gen_limits.values().get("optionSmallBuffer")
-    SMALL_BUFFER_EDGE[:] = [sb - 1, sb, sb + 1] if sb is not None and 1 <= sb < 4096 else []
+    # only lengths the literal list below does not contain: on the unchanged tree the random stream stays what it was
+    SMALL_BUFFER_EDGE[:] = [x for x in ([sb - 1, sb, sb + 1] if sb is not None and 1 <= sb < 4096 else [])
+                            if x not in (0, 1, 7, 8, 9, 10, 16, 40)]
     problems = chk.prove(MODULES, AUDIT, want_leanchecker=(chk.tier == "thorough"))
     problems = gen_limits.name_failures(chk, problems, "C12")   # name the tie theorems that fail
     exe, err = core.build_harness(HARNESS, extra=HARNESS_EXTRA)
